@@ -1,4 +1,8 @@
 import I18n.Model.Cli
+import I18n.Generated.StateSites
+import I18n.Lemmas.CliState
+import I18n.Lemmas.HashOrder
+import I18n.Model.CliWitness
 /-!
 # C03 (composition clause) — multi-file output is the concatenation of the single-file outputs
 
@@ -82,5 +86,414 @@ theorem concat_of_single_runs {α : Type} (checkFile : α → List String) (path
 
 /-! Non-vacuity: three files, five workers, completion order 2,0,1 -/
 example : checkAll (fun (s : String) => [s ++ "!"]) ["a", "b", "c"] 5 [2, 0, 1] = ["a!", "b!", "c!"] := by decide
+
+/-! ## Pins on the inventories regenerated from /repo (tools/translate/state2lean.py)
+
+Each pin is decided by evaluation over the generated lists; it talks about KINDS only.  A new `lru_cache` on a function that
+inspects the stack, a module-level set that a check mutates, `', '.join(frozenset)`, a Checker created outside the per-file
+path … regenerate a site of a non-benign kind and the pin stops compiling (`chk.broken` -> falsifier on the real CLI). -/
+section Pins
+open I18n.Spec I18n.Generated.StateSites
+
+/-- every piece of process-global state is of a benign kind (justified kind by kind in `Spec/StateKinds.lean`) -/
+theorem global_state_sites_benign : ∀ s ∈ stateSites, s.kind.benign = true := by decide +kernel
+
+/-- no expression whose order is the hash order of a set reaches an order-sensitive consumer -/
+theorem unordered_iteration_sites_sorted : ∀ s ∈ iterSites, s.verdict.benign = true := by decide +kernel
+
+/-- the data obligation of the `lookupOnly` verdict: dicts built by iterating a set have pairwise distinct keys
+    (so the last-writer-wins rule of dict construction never applies and the build order is invisible) -/
+theorem lookup_tables_have_distinct_keys : ∀ t ∈ lookupKeys, t.2.1 = true ∧ t.2.2.Nodup := by decide +kernel
+
+/-- whatever a function of the per-file path mutates is an object created for that call -/
+theorem per_file_mutations_hit_per_call_objects : ∀ s ∈ mutSites, s.root.perCall = true := by decide +kernel
+
+/-- Checker instances, the ctx namespace and every loop accumulator (`found_unusual_characters`, `msgid_counter`, …) are
+    created inside the per-call path -/
+theorem accumulators_per_call : ∀ s ∈ creationSites, s.perCall = true := by decide +kernel
+
+/-- reads of randomness / clock / stack / environment / directory order are of the classified kinds -/
+theorem nondeterminism_sources_benign : ∀ s ∈ nondetSites, s.kind.benign = true := by decide +kernel
+
+/-- `options.jobs` is read by the driver (`check_all`) and on the start-up path (`main`) only — never by a check: this is
+    why the job count is a separate argument of `CliState.checkAll` and the per-file program cannot depend on it -/
+theorem jobs_option_read_by_driver_only : ∀ r ∈ sharedReads, r.1 = "jobs" → r.2.2 ≠ "perFile" := by decide +kernel
+
+/-! Non-vacuity of the pins: the inventories are populated, and contain the sites the property's anchors name
+(by role / kind, not by identifier) -/
+example : (sharedReads.filter (fun r => r.1 == "jobs")).length ≥ 1 ∧ (sharedReads.filter (fun r => r.2.2 == "perFile")).length ≥ 3 := by
+  decide +kernel
+example : stateSites.length ≥ 100 ∧ iterSites.length ≥ 60 ∧ mutSites.length ≥ 100 := by decide +kernel
+example : (stateSites.filter (fun s => s.kind == .pureCache)).length ≥ 1
+    ∧ (stateSites.filter (fun s => s.kind == .patchAtStartup)).length ≥ 10
+    ∧ (stateSites.filter (fun s => s.kind == .onceInstaller)).length ≥ 1
+    ∧ (stateSites.filter (fun s => s.kind == .importRegistry)).length ≥ 1
+    ∧ (stateSites.filter (fun s => s.kind == .scopedRedirect)).length ≥ 1 := by decide +kernel
+example : (iterSites.filter (fun s => s.verdict == .sorted)).length ≥ 20
+    ∧ (iterSites.filter (fun s => s.verdict == .lookupOnly)).length = lookupKeys.length := by decide +kernel
+example : (creationSites.filter (fun s => s.role == "checker-instance")).length ≥ 1
+    ∧ (creationSites.filter (fun s => s.role == "ctx-namespace")).length ≥ 1
+    ∧ (creationSites.filter (fun s => s.role == "loop-accumulator")).length ≥ 10 := by decide +kernel
+/-- the predicates do reject: the kinds the seeded changes produce are not benign -/
+example : StateKind.impureCache.benign = false ∧ StateKind.perFileMutated.benign = false ∧ OrderVerdict.unsorted.benign = false
+    ∧ MutRoot.sharedParam.perCall = false ∧ MutRoot.classState.perCall = false ∧ NondetKind.other.benign = false := by decide
+end Pins
+
+/-! ## The per-file path with explicit global state (`Model/CliState.lean`)
+
+`G` = (patched flag, cache table): the components of the state inventory that are written after import.  A per-file
+program can observe `G` only by calling a memoised function.  Hypothesis `KeyDetermines proj f` is the meaning of kind
+`pureCache`: the cache key determines the value.  `Inv g` (patched ∧ every cached value is the function's value) holds in
+the state `main` creates and is preserved by every file, in the parent and in every pool worker. -/
+section State
+open I18n.CliState
+variable {K K' V O F : Type} [DecidableEq K']
+variable {proj : K → K'} {f : K → V} (unpackDeb : O → Bool)
+variable (checkRegular : O → F → Prog K V) (checkDeb : O → F → Option (Prog K V))
+
+/-- **No history**: in every reachable global state, after ANY list of files checked earlier in the same process (any
+    prefix, any permutation, any repetition — `hist` is arbitrary), the lines printed for `file` are those of the
+    file checked alone in a fresh process: `out o file` mentions neither `g` nor `hist`. -/
+theorem no_history (hkey : KeyDetermines proj f) (o : O) (g : G K' V) (hg : Inv proj f g) (hist : List F) (file : F) :
+    (step proj f unpackDeb checkRegular checkDeb o (seqRun proj f unpackDeb checkRegular checkDeb o g hist).1 file).2
+      = .ok (out f unpackDeb checkRegular checkDeb o file) :=
+  (step_inv unpackDeb checkRegular checkDeb hkey o _ file
+    (seqRun_inv unpackDeb checkRegular checkDeb hkey o hist g hg).2).1
+
+/-- the blocks printed by the sequential loop are, one by one, the single-run outputs -/
+theorem seq_blocks_are_single_runs (hkey : KeyDetermines proj f) (o : O) :
+    ∀ (files : List F) (g : G K' V), Inv proj f g →
+      seqBlocks proj f unpackDeb checkRegular checkDeb o g files
+        = files.map (fun p => .ok (out f unpackDeb checkRegular checkDeb o p)) := by
+  intro files
+  induction files with
+  | nil => intro g _; rfl
+  | cons file rest ih =>
+    intro g hg
+    have hs := step_inv unpackDeb checkRegular checkDeb hkey o g file hg
+    simp only [seqBlocks, List.map_cons, hs.1, ih _ hs.2]
+
+/-- permuting the argument list permutes the blocks and changes none of them -/
+theorem no_history_perm (hkey : KeyDetermines proj f) (o : O) (g : G K' V) (hg : Inv proj f g) (l1 l2 : List F)
+    (h : l1.Perm l2) :
+    (seqBlocks proj f unpackDeb checkRegular checkDeb o g l1).Perm
+      (seqBlocks proj f unpackDeb checkRegular checkDeb o g l2) := by
+  rw [seq_blocks_are_single_runs unpackDeb checkRegular checkDeb hkey o l1 g hg,
+      seq_blocks_are_single_runs unpackDeb checkRegular checkDeb hkey o l2 g hg]
+  exact h.map _
+
+/-- **Multi-file output = concatenation of the single-file outputs**, at full strength: for every reachable global state,
+    every job count `j`, every assignment of tasks to pool workers and every execution order `sched` in which each task is
+    run (workers keep their own state between the tasks they get). -/
+theorem multi_file_concat (hkey : KeyDetermines proj f) (o : O) (j : Nat) (g : G K' V) (hg : Inv proj f g)
+    (paths : List F) (sched : List (Nat × Nat)) (hall : ∀ i, i < paths.length → i ∈ sched.map (·.1)) :
+    (CliState.checkAll proj f unpackDeb checkRegular checkDeb o j g paths sched).2
+      = .ok ((paths.map (out f unpackDeb checkRegular checkDeb o)).flatten) := by
+  unfold CliState.checkAll
+  split
+  · exact (seqRun_inv unpackDeb checkRegular checkDeb hkey o paths g hg).1
+  · simp only
+    have : (List.range paths.length).map (fun i =>
+        ((parExec proj f unpackDeb checkRegular checkDeb o paths sched (fun _ => g)).find? (fun q => q.1 == i)).map (·.2))
+        = (paths.map (out f unpackDeb checkRegular checkDeb o)).map (fun x => some (Except.ok x)) := by
+      apply List.ext_getElem
+      · simp
+      · intro i h1 h2
+        simp only [List.getElem_map, List.getElem_range]
+        have hi : i < paths.length := by simpa using h1
+        exact parExec_find unpackDeb checkRegular checkDeb hkey o paths sched _ (fun _ => hg) i paths[i]
+          (List.getElem?_eq_getElem hi) (hall i hi)
+    rw [this, collect_all_ok]
+
+/-- a single-file invocation (`-j 1`, nothing scheduled) prints `out o file` -/
+theorem single_file_run (hkey : KeyDetermines proj f) (o : O) (g : G K' V) (hg : Inv proj f g) (file : F) :
+    (CliState.checkAll proj f unpackDeb checkRegular checkDeb o 1 g [file] []).2
+      = .ok (out f unpackDeb checkRegular checkDeb o file) := by
+  have h := (seqRun_inv unpackDeb checkRegular checkDeb hkey o [file] g hg).1
+  simpa [CliState.checkAll] using h
+
+/-- the state `main` hands to `check_all`, starting from a freshly imported interpreter, satisfies the invariant -/
+theorem fresh_patched_inv : ∀ g1, patchEnvironment (fresh : G K' V) = .ok g1 → Inv proj f g1 := by
+  intro g1 h
+  simp only [patchEnvironment, fresh] at h
+  cases h
+  exact ⟨rfl, consistent_nil proj f⟩
+
+/-- **`main` end to end**: from a fresh process, for every file list, job count and schedule, `main` raises neither
+    `EnvironmentAlreadyPatched` nor `EnvironmentNotPatched`, exits with status 0 and prints the concatenation, in argument
+    order, of what `main` prints for each file alone with `-j 1`. -/
+theorem main_concat_of_single_runs (hkey : KeyDetermines proj f) (o : O) (j : Nat) (files : List F)
+    (sched : List (Nat × Nat)) (hall : ∀ i, i < files.length → i ∈ sched.map (·.1)) :
+    CliState.main proj f unpackDeb checkRegular checkDeb o j fresh files sched
+      = (.ok ((files.map (out f unpackDeb checkRegular checkDeb o)).flatten), 0)
+    ∧ ∀ file, CliState.main proj f unpackDeb checkRegular checkDeb o 1 fresh [file] []
+      = (.ok (out f unpackDeb checkRegular checkDeb o file), 0) := by
+  have hinv : Inv proj f ({ patched := true, cache := [] } : G K' V) := ⟨rfl, consistent_nil proj f⟩
+  have hp : patchEnvironment (fresh : G K' V) = .ok { patched := true, cache := [] } := rfl
+  constructor
+  · simp only [CliState.main, hp]
+    rw [multi_file_concat unpackDeb checkRegular checkDeb hkey o j _ hinv files sched hall]
+  · intro file
+    simp only [CliState.main, hp]
+    rw [single_file_run unpackDeb checkRegular checkDeb hkey o _ hinv file]
+
+omit [DecidableEq K'] in
+/-- the once-flag does its job: a second `patch_environment` in the same process is refused, and a Checker created
+    before the first one is refused (the two exceptions of lib/check/__init__.py) -/
+theorem patch_environment_once (g : G K' V) (hg : g.patched = true) :
+    patchEnvironment g = .error .environmentAlreadyPatched := by
+  simp [patchEnvironment, hg]
+
+theorem unpatched_checker_refused (o : O) (g : G K' V) (hg : g.patched = false) (file : F) :
+    step proj f unpackDeb checkRegular checkDeb o g file = (g, .error .environmentNotPatched) := by
+  simp [step, hg]
+
+/-- `check_file_s` leaves `sys.stdout` as it found it, whatever `check_file` did (kind scopedRedirect), and captures exactly
+    what `check_file` would have printed -/
+theorem check_file_s_is_check_file_captured (hkey : KeyDetermines proj f) (o : O) (g : G K' V) (hg : Inv proj f g) (file : F) :
+    (checkFileS proj f unpackDeb checkRegular checkDeb o g file).1.captured = g.captured
+    ∧ (checkFileS proj f unpackDeb checkRegular checkDeb o g file).2
+        = (step proj f unpackDeb checkRegular checkDeb o g file).2 := by
+  refine ⟨rfl, ?_⟩
+  rw [(checkFileS_inv unpackDeb checkRegular checkDeb hkey o g file hg).1,
+      (step_inv unpackDeb checkRegular checkDeb hkey o g file hg).1]
+
+end State
+
+/-! ### What the `pureCache` pin excludes: a cache keyed on less than its inputs (seeded change C03-a)
+
+`polib_unescape` memoised on the escaped text alone, while its value also depends on the charset of the file being parsed.
+Two files with the same escaped text and different charsets: the second file is printed with the first file's decoding. -/
+section Stale
+open I18n.CliState I18n.CliWitness
+
+/-- the lossy key does not determine the value … -/
+theorem stale_key_does_not_determine : ¬ KeyDetermines staleProj staleF := by
+  intro h
+  have := h ("x", "a") ("x", "b") rfl
+  simp [staleF] at this
+
+/-- … and history becomes visible: after `latin1.po`, `latin9.po` is printed with the Latin-1 decoding, which is not what
+    `latin9.po` prints alone; with the full key (`proj = id`) the same run is history-free. -/
+theorem stale_cache_breaks_no_history :
+    let g0 : G String String := { patched := true, cache := [] }
+    let run := fun (hist : List String) =>
+      lines (step staleProj staleF (fun _ => false) staleCheck (fun _ _ => none) ()
+              (seqRun staleProj staleF (fun _ => false) staleCheck (fun _ _ => none) () g0 hist).1 "ISO-8859-15").2
+    run [] = ["ISO-8859-15:\\xa4"] ∧ run ["ISO-8859-1"] = ["ISO-8859-1:\\xa4"] ∧ run ["ISO-8859-1"] ≠ run [] := by
+  decide
+
+example :
+    let g0 : G (String × String) String := { patched := true, cache := [] }
+    let run := fun (hist : List String) =>
+      lines (step id staleF (fun _ => false) staleCheck (fun _ _ => none) ()
+              (seqRun id staleF (fun _ => false) staleCheck (fun _ _ => none) () g0 hist).1 "ISO-8859-15").2
+    run ["ISO-8859-1"] = run [] := by
+  decide
+
+/-- non-vacuity of `multi_file_concat`: three files, two workers, worker 0 gets tasks 2 then 0, worker 1 gets task 1;
+    the cache is shared by the tasks of a worker -/
+example :
+    lines (CliState.checkAll id staleF (fun _ => false) staleCheck (fun _ _ => none) () 2
+            ({ patched := true, cache := [] } : G (String × String) String)
+            ["ISO-8859-1", "ISO-8859-15", "ISO-8859-1"] [(2, 0), (1, 1), (0, 0)]).2
+      = ["ISO-8859-1:\\xa4", "ISO-8859-15:\\xa4", "ISO-8859-1:\\xa4"] := by
+  decide
+end Stale
+
+/-! ### What `per_file_mutations_hit_per_call_objects` excludes: a per-file function writing into the shared options
+(seeded change C03-d; the defect repaired by 6966f22)
+
+In the model the options `o` are an immutable parameter of every `step` — justified by the pin: no mutation of the per-file
+path reaches an object created in `main`.  If `check_deb` adds `unknown-file-type` to the `ignore_tags` set that all files
+share, the options become one more component of the threaded state, and a later file loses a line. -/
+section SharedOptions
+open I18n.CliWitness
+
+theorem shared_options_mutation_breaks_concat :
+    runWith stepShared [] [("gizmo.deb", true), ("readme.txt", false)]
+      ≠ runWith stepShared [] [("gizmo.deb", true)] ++ runWith stepShared [] [("readme.txt", false)]
+    ∧ runWith stepCopy [] [("gizmo.deb", true), ("readme.txt", false)]
+      = runWith stepCopy [] [("gizmo.deb", true)] ++ runWith stepCopy [] [("readme.txt", false)] := by
+  decide
+end SharedOptions
+
+/-! ### What `accumulators_per_call` excludes: accumulators that survive the call (a module-level `found_unusual_characters`,
+a class-level list on `Checker`, one Checker reused for all files) -/
+section SharedAccumulators
+open I18n.CliWitness
+
+/-- two files with the same message (msgid `bell`, a BEL in the translation): with per-call accumulators each file gets its
+    `unusual-character-in-translation`; with accumulators that survive the call the second file loses it and gains a
+    `duplicate-message-definition` it does not deserve -/
+theorem shared_accumulator_breaks_no_history :
+    let file : List (String × List Nat) := [("bell", [7])]
+    (checkMessagesPerCall file ++ checkMessagesPerCall file
+      = ["unusual-character-in-translation bell", "unusual-character-in-translation bell"])
+    ∧ runSharedAccumulators ([], []) [file, file]
+      = ["unusual-character-in-translation bell", "duplicate-message-definition bell"]
+    ∧ runSharedAccumulators ([], []) [file, file] ≠ checkMessagesPerCall file ++ checkMessagesPerCall file := by
+  decide
+
+/-- within ONE file the accumulators do their job (non-vacuity of the witness model) -/
+example : checkMessagesPerCall [("bell", [7]), ("bell", [7, 8]), ("x", [8])]
+    = ["unusual-character-in-translation bell", "duplicate-message-definition bell", "unusual-character-in-translation bell"] := by
+  decide
+end SharedAccumulators
+
+/-! ## Hash-seed independence inside the model (`Model/HashOrder.lean`)
+
+A set is iterated in an ARBITRARY order `ord` (any rearrangement of its elements).  Each theorem below is the shape of the
+sites of one verdict of `Generated/StateSites.iterSites` and says: the result is the same for every `ord`. -/
+section HashSeed
+open I18n.HashOrder
+variable {α β : Type}
+
+/-- **`sorted` kills the iteration order**: for a transitive, total comparison that is antisymmetric on the elements
+    (they are pairwise distinct members of a set, compared by a linear order), sorting any rearrangement gives the same
+    list. -/
+theorem sorted_kills_order (ord : SetOrder α) (le : α → α → Bool)
+    (trans : ∀ a b c, le a b → le b c → le a c) (total : ∀ a b, le a b || le b a) (s : List α)
+    (antisymm : ∀ a b, a ∈ s → b ∈ s → le a b → le b a → a = b) :
+    pySorted le (ord.order s) = pySorted le s := by
+  have hp : (pySorted le (ord.order s)).Perm (pySorted le s) :=
+    (pySorted_perm _ _).trans ((ord.perm s).trans (pySorted_perm _ _).symm)
+  apply List.Perm.eq_of_pairwise (le := fun a b => le a b = true) _ (pySorted_pairwise le trans total _)
+    (pySorted_pairwise le trans total _) hp
+  intro a b ha hb hab hba
+  have ha' : a ∈ s := (ord.perm s).mem_iff.mp ((pySorted_perm _ _).mem_iff.mp ha)
+  have hb' : b ∈ s := (pySorted_perm _ _).mem_iff.mp hb
+  exact antisymm a b ha' hb' hab hba
+
+/-- `', '.join(sorted(types))` (msgformat/pybrace.py after ef37847; c.py; python.py): the same text under every hash seed -/
+theorem sorted_join_seed_independent (ord1 ord2 : SetOrder String) (le : String → String → Bool)
+    (trans : ∀ a b c, le a b → le b c → le a c) (total : ∀ a b, le a b || le b a) (sep : String) (s : List String)
+    (antisymm : ∀ a b, a ∈ s → b ∈ s → le a b → le b a → a = b) :
+    sortedJoin ord1 le sep s = sortedJoin ord2 le sep s := by
+  unfold sortedJoin
+  rw [sorted_kills_order ord1 le trans total s antisymm, sorted_kills_order ord2 le trans total s antisymm]
+
+/-- `for x in sorted(s): …tag(…)…` (`_check_message_formats`, the `sorted(set(x))` idiom of check/__init__.py): the same
+    lines in the same order under every hash seed -/
+theorem sorted_for_seed_independent (ord1 ord2 : SetOrder α) (le : α → α → Bool)
+    (trans : ∀ a b c, le a b → le b c → le a c) (total : ∀ a b, le a b || le b a) (emit : α → List String) (s : List α)
+    (antisymm : ∀ a b, a ∈ s → b ∈ s → le a b → le b a → a = b) :
+    sortedFor ord1 le emit s = sortedFor ord2 le emit s := by
+  unfold sortedFor
+  rw [sorted_kills_order ord1 le trans total s antisymm, sorted_kills_order ord2 le trans total s antisymm]
+
+/-- `sorted(s, key=sort_key)` with a key that is injective on the elements (the classifier demands that the key contains the
+    element itself): order-free.  With a key that ties, the stable sort leaks the hash order — `tie_in_key_leaks_order`. -/
+theorem sorted_by_injective_key_seed_independent (ord1 ord2 : SetOrder α) (key : α → β) (leKey : β → β → Bool)
+    (trans : ∀ a b c, leKey a b → leKey b c → leKey a c) (total : ∀ a b, leKey a b || leKey b a)
+    (antisymmKey : ∀ a b, leKey a b → leKey b a → a = b) (s : List α)
+    (inj : ∀ a b, a ∈ s → b ∈ s → key a = key b → a = b) :
+    sortedByKey ord1 key leKey s = sortedByKey ord2 key leKey s := by
+  unfold sortedByKey
+  have h := fun (o : SetOrder α) => sorted_kills_order o (fun a b => leKey (key a) (key b))
+    (fun a b c => trans (key a) (key b) (key c)) (fun a b => total (key a) (key b)) s
+    (fun a b ha hb hab hba => inj a b ha hb (antisymmKey _ _ hab hba))
+  rw [h ord1, h ord2]
+
+/-- what the pins exclude (1): `', '.join(frozenset)` without `sorted` — two hash orders, two texts
+    (the defect of msgformat/pybrace.py repaired by ef37847, msgid `{0:n}` / msgstr `{0:s}`) -/
+theorem raw_join_depends_on_seed :
+    rawJoin .asWritten ", " ["int", "str"] ≠ rawJoin .reversed ", " ["int", "str"] := by decide
+
+/-- what the pins exclude (2): `sorted(s, key=…)` with a key that ties (here: constant) keeps the hash order -/
+theorem tie_in_key_leaks_order :
+    sortedByKey (.asWritten : SetOrder Nat) (fun _ => 0) (fun a b => decide (a ≤ b)) [1, 2]
+      ≠ sortedByKey .reversed (fun _ => 0) (fun a b => decide (a ≤ b)) [1, 2] := by decide
+
+/-- a regex alternation built from a set and used for match existence only (`check_comments`) -/
+theorem any_match_seed_independent (ord1 ord2 : SetOrder α) (matchesAlt : α → Bool) (s : List α) :
+    anyMatch ord1 matchesAlt s = anyMatch ord2 matchesAlt s := by
+  unfold anyMatch
+  have h : ∀ (o : SetOrder α), (o.order s).any matchesAlt = s.any matchesAlt := by
+    intro o
+    rw [Bool.eq_iff_iff]
+    simp only [List.any_eq_true]
+    constructor
+    · rintro ⟨x, hx, hm⟩; exact ⟨x, (o.perm s).mem_iff.mp hx, hm⟩
+    · rintro ⟨x, hx, hm⟩; exact ⟨x, (o.perm s).mem_iff.mpr hx, hm⟩
+  rw [h ord1, h ord2]
+
+theorem length_le_one_of_all_eq {l : List α} (hn : l.Nodup) (heq : ∀ a b, a ∈ l → b ∈ l → a = b) :
+    l = [] ∨ ∃ x, l = [x] := by
+  cases l with
+  | nil => exact Or.inl rfl
+  | cons a t =>
+    cases t with
+    | nil => exact Or.inr ⟨a, rfl⟩
+    | cons b t' =>
+      have hab : a = b := heq a b (by simp) (by simp)
+      subst hab
+      simp at hn
+
+/-- a dict built by iterating a set and used for look-ups only (`header_fields_lc`, `_unmangle_encoding`): when the keys
+    are pairwise distinct (pin `lookup_tables_have_distinct_keys`) every look-up gives the same answer under every order -/
+theorem dict_get_seed_independent [DecidableEq β] (ord1 ord2 : SetOrder α) (key : α → β) (s : List α) (hn : s.Nodup)
+    (inj : ∀ a b, a ∈ s → b ∈ s → key a = key b → a = b) (k : β) :
+    dictGet (dictOfSet ord1 key s) k = dictGet (dictOfSet ord2 key s) k := by
+  have h : ∀ (o : SetOrder α), (dictOfSet o key s).filter (fun kv => kv.1 == k)
+      = (s.filter (fun x => key x == k)).map (fun x => (key x, x)) := by
+    intro o
+    unfold dictOfSet
+    rw [List.filter_map]
+    congr 1
+    have hp : ((o.order s).filter (fun x => key x == k)).Perm (s.filter (fun x => key x == k)) := (o.perm s).filter _
+    have hn' : (s.filter (fun x => key x == k)).Nodup := hn.filter _
+    have heq : ∀ a b, a ∈ s.filter (fun x => key x == k) → b ∈ s.filter (fun x => key x == k) → a = b := by
+      intro a b ha hb
+      simp only [List.mem_filter, beq_iff_eq] at ha hb
+      exact inj a b ha.1 hb.1 (ha.2.trans hb.2.symm)
+    rcases length_le_one_of_all_eq hn' heq with h0 | ⟨x, hx⟩
+    · rw [h0] at hp ⊢; exact hp.eq_nil
+    · rw [hx] at hp ⊢; exact hp.eq_singleton
+  unfold dictGet
+  rw [h ord1, h ord2]
+
+/-- `difflib.get_close_matches(word, <set>, n=1)`: the maximum of (score, candidate) pairs under a total order is the same
+    whatever the order in which the candidates are visited -/
+theorem best_match_seed_independent (ord1 ord2 : SetOrder α) (better : α → α → α)
+    (comm : ∀ a b, better a b = better b a) (assoc : ∀ a b c, better (better a b) c = better a (better b c)) (s : List α) :
+    bestMatch ord1 better s = bestMatch ord2 better s := by
+  unfold bestMatch
+  have hp : (ord1.order s).Perm (ord2.order s) := (ord1.perm s).trans (ord2.perm s).symm
+  apply hp.foldl_eq'
+  intro x _ y _ z
+  cases z with
+  | none => simp only [comm x y]
+  | some a =>
+    simp only [Option.some.injEq]
+    rw [assoc, assoc, comm x y]
+
+/-- `[x] = s` and `s.pop()` under `len(s) == 1` -/
+theorem the_only_seed_independent (ord1 ord2 : SetOrder α) (s : List α) : theOnly ord1 s = theOnly ord2 s := by
+  have h : ∀ (o : SetOrder α), theOnly o s = (match s with | [x] => some x | _ => none) := by
+    intro o
+    unfold theOnly
+    have hp := o.perm s
+    have hl := hp.length_eq
+    match s, hp, hl with
+    | [], hp, _ => rw [hp.eq_nil]
+    | [x], hp, _ => rw [hp.eq_singleton]
+    | x :: y :: t, _, hl =>
+      cases ho : o.order (x :: y :: t) with
+      | nil => simp [ho] at hl
+      | cons a r =>
+        cases r with
+        | nil => simp [ho] at hl
+        | cons b r' => rfl
+  rw [h ord1, h ord2]
+
+/-! non-vacuity: concrete sets, two different iteration orders, the real comparison on strings -/
+example : sortedJoin .asWritten (fun a b => decide (a ≤ b)) ", " ["str", "int", "float"] = "float, int, str"
+    ∧ sortedJoin .reversed (fun a b => decide (a ≤ b)) ", " ["str", "int", "float"] = "float, int, str" := by decide
+example : sortedFor (.reversed : SetOrder Nat) (fun a b => decide (a ≤ b)) (fun n => [toString n]) [3, 1, 2] = ["1", "2", "3"] := by
+  decide
+example : dictGet (dictOfSet (.reversed : SetOrder String) String.length ["a", "bb"]) 2 = some "bb" := by decide
+example : bestMatch (.reversed : SetOrder Nat) max [3, 9, 4] = some 9 ∧ theOnly (.reversed : SetOrder Nat) [7] = some 7 := by decide
+end HashSeed
 
 end I18n.Props.C03
